@@ -144,6 +144,30 @@ inline std::string value_trace()
 	return s.empty() ? "-" : s;
 }
 
+// structural validator of a TreeSet (private access): the root has no parent, every child points back to its node,
+// internal nodes have count+1 children, the item counts add up to GetCount().  "" = valid.
+template<typename Node>
+inline bool check_node(Node* node, Node* parent, size_t& items, std::string& err, int depth)
+{
+	if (depth > 64) { err = "tree too deep / cyclic"; return false; }
+	if (node->GetParent() != parent) { err = "a node's parent pointer does not point to its parent (depth " + std::to_string(depth) + ")"; return false; }
+	size_t cnt = node->GetCount();
+	items += cnt;
+	if (!node->IsLeaf())
+		for (size_t i = 0; i <= cnt; ++i)
+			if (!check_node(node->GetChild(i), node, items, err, depth + 1)) return false;
+	return true;
+}
+template<typename S> inline auto check_tree(const S& s, int) -> decltype((void)s.mRootNode, std::string())
+{
+	if (s.mRootNode == nullptr) return s.GetCount() == 0 ? "" : "null root with non-zero count";
+	size_t items = 0; std::string err;
+	if (!check_node(s.mRootNode, static_cast<decltype(s.mRootNode)>(nullptr), items, err, 0)) return err;
+	if (items != s.GetCount()) return "node item counts " + std::to_string(items) + " != GetCount() " + std::to_string(s.GetCount());
+	return "";
+}
+template<typename S> inline std::string check_tree(const S&, long) { return ""; }
+
 enum Kind { K_ALLOC = 0, K_COPY = 1, K_FUNC = 2 };
 inline int kind_of(const std::string& s) { return s == "alloc" ? K_ALLOC : s == "copy" ? K_COPY : K_FUNC; }
 inline void arm_kind(int kind, long k)
